@@ -51,7 +51,10 @@ def r1b_extension_op_chain(ctx, nf) -> None:
             continue
         a = ctor_args(term)
         exp_name = attr(opdef, "name")
-        sig_ok = a.get("signature") in (attr(s, "signature"), attr(attr(attr(opdef, "signature"), "poly_func"), "body"))
+        def leaves(t):
+            return leaves(t[2]) + leaves(t[3]) if isinstance(t, tuple) and t and t[0] == "ite" else [t]
+        sig_ok = a.get("signature") is not None and all(
+            x in (attr(s, "signature"), attr(attr(attr(opdef, "signature"), "poly_func"), "body")) for x in leaves(a.get("signature")))
         ext_term = a.get("extension")
         ext_ok = ext_term is not None and attr(attr(opdef, "_extension"), "name") in _subterms(ext_term)
         probs = []
